@@ -239,6 +239,44 @@ pub fn run(op: &str, v: &Value) -> Value {
             let r2 = if same { c.is_subtype(a, &ta, b, &ta) } else { c.is_subtype(a, &ta, b, &tb) };
             json!({"ok": r.is_ok(), "again": r2.is_ok(), "err": r.err().map(|e| format!("{e:#}"))})
         }
+        // {"reqs": [[name, item], ...]} : aggregate the requirements in order (each from its own Types collection)
+        "aggregate" => {
+            let mut agg = TypeAggregator::default();
+            let mut cache = HashSet::new();
+            let mut checker = SubtypeChecker::new(&mut cache);
+            let mut names = vec![];
+            let mut srcs: Vec<(Types, ItemKind)> = vec![];
+            for r in v["reqs"].as_array().unwrap() {
+                let name = r[0].as_str().unwrap().to_string();
+                let mut t = Types::default();
+                let k = item(&mut t, &r[1]);
+                names.push(name);
+                srcs.push((t, k));
+            }
+            for (i, (t, k)) in srcs.iter().enumerate() {
+                agg = match agg.aggregate(&names[i], t, *k, &mut checker) {
+                    Ok(a) => a,
+                    Err(e) => return json!({"error": format!("{e:#}"), "at": i}),
+                };
+            }
+            let imports: Vec<String> = agg.imports().map(|(n, _)| n.to_string()).collect();
+            let canon: Vec<String> = names.iter().map(|n| agg.canonical_import_name(n).to_string()).collect();
+            // does the merged import satisfy every contributor?  merged <: contributor
+            let mut sat = vec![];
+            for (i, (t, k)) in srcs.iter().enumerate() {
+                let c = agg.canonical_import_name(&names[i]).to_string();
+                let merged = agg.imports().find(|(n, _)| *n == c).map(|(_, k)| k);
+                match merged {
+                    None => sat.push(Value::Null),
+                    Some(mk) => {
+                        let mut cache2 = HashSet::new();
+                        let mut c2 = SubtypeChecker::new(&mut cache2);
+                        sat.push(json!(c2.is_subtype(mk, agg.types(), *k, t).is_ok()));
+                    }
+                }
+            }
+            json!({"imports": imports, "canonical": canon, "satisfies": sat})
+        }
         "package_from_wat" => {
             let wat_text = v["wat"].as_str().unwrap();
             let bytes = match wat::parse_str(wat_text) {
